@@ -41,6 +41,7 @@ type serveObs struct {
 	panicked   bool
 	duringFree int // slots free while the upstream was handling the request (-1: upstream never reached)
 	afterFree  int // slots free after ServeHTTP returned
+	ownLimit   string
 	err        string
 }
 
@@ -125,9 +126,13 @@ func runImplServe(s ServeCase) (obs serveObs) {
 		rule = proxyv1alpha1.DispatchPolicyRule{Verbs: []string{"delete"}, APIGroups: []string{"apps"}, Resources: []string{"deployments"}}
 	}
 	uc.Spec.DispatchPolicies = []proxyv1alpha1.DispatchPolicy{{Rules: []proxyv1alpha1.DispatchPolicyRule{rule}, FlowControlSchemaName: serveSchema}}
-	uc.Spec.FlowControl = proxyv1alpha1.FlowControl{Schemas: []proxyv1alpha1.FlowControlSchema{{Name: serveSchema,
-		FlowControlSchemaConfiguration: proxyv1alpha1.FlowControlSchemaConfiguration{
-			MaxRequestsInflight: &proxyv1alpha1.MaxRequestsInflightFlowControlSchema{Max: int32(s.Limit)}}}}}
+	mi := func(name string, max int) proxyv1alpha1.FlowControlSchema {
+		return proxyv1alpha1.FlowControlSchema{Name: name, FlowControlSchemaConfiguration: proxyv1alpha1.FlowControlSchemaConfiguration{
+			MaxRequestsInflight: &proxyv1alpha1.MaxRequestsInflightFlowControlSchema{Max: int32(max)}}}
+	}
+	// look-alike schemas with other limits beside the one the policy names: they must not lend it capacity
+	uc.Spec.FlowControl = proxyv1alpha1.FlowControl{Schemas: []proxyv1alpha1.FlowControlSchema{
+		mi("FC", s.Limit+2), mi(serveSchema, s.Limit), mi(serveSchema+" ", s.Limit+3), mi("Fc", 0)}}
 	health := alwaysReady
 	if s.Way == "no-endpoint" {
 		health = neverReady
@@ -155,6 +160,10 @@ func runImplServe(s ServeCase) (obs serveObs) {
 	manager.Add(ci)
 	h := proxydispatcher.NewDispatcher(manager, false)
 
+	if n := freeSlots(ci, s.Limit+4); n != s.Limit {
+		obs.ownLimit = fmt.Sprintf("schema %q is configured with limit %d but admits %d requests (look-alike schemas FC=%d, \"fc \"=%d, Fc=0 are configured beside it)", serveSchema, s.Limit, n, s.Limit+2, s.Limit+3)
+		return
+	}
 	// other requests in flight
 	fc := ci.GetFlowSchema(serveSchema)
 	held := 0
@@ -226,6 +235,9 @@ func runServe(c *rig.Ctx, s ServeCase, record bool) bool {
 		obs = runImplServe(s) // once more: a stalled machine is not a verdict
 	}
 	impl := map[string]interface{}{"status": obs.status, "panicked": obs.panicked, "free_during": obs.duringFree, "free_after": obs.afterFree}
+	if obs.ownLimit != "" {
+		return fail("judge", "c05.serve-limit-not-own", obs.ownLimit, impl, nil)
+	}
 	if obs.err != "" {
 		return fail("diff", "c05.serve-rig", "the dispatcher rig could not run: "+obs.err, impl, nil)
 	}
